@@ -9,8 +9,9 @@ exactly for the sensors whose entry in dataset.DEFAULT_SENSOR_PROPS says allow_r
 Each fact is re-read from the source (Python ast, fail-closed) into Gen/Generated.v; Proofs/ConcatP.v
 (`concat_constants_ok`) proves they have the values the model assumes."""
 import ast
+import re
 
-from vh.translate import TranslateError, _class, _func, _parse, coq_string, coq_strings
+from vh.translate import TranslateError, _class, _func, _parse, coq_string, coq_strings, coq_Z
 
 REL = 'katdal/concatdata.py'
 
@@ -214,6 +215,54 @@ def item_identity(repo, out):
 # ---------------------------------------------------------------------------------------------------------------
 # the dummy value per type (sensordata.dummy_sensor_getter), the filler of ConcatenatedSensorCache.get
 
+def _cast_int_filler(node):
+    """np.array(<int literal>).astype(dtype)[()] -> the int; anything else -> None"""
+    if not (isinstance(node, ast.Subscript) and isinstance(node.slice, ast.Tuple) and not node.slice.elts):
+        return None
+    call = node.value
+    if not (isinstance(call, ast.Call) and isinstance(call.func, ast.Attribute) and call.func.attr == 'astype'
+            and len(call.args) == 1 and not call.keywords and _src(call.args[0]) == 'dtype'):
+        return None
+    inner = call.func.value
+    if not (isinstance(inner, ast.Call) and _src(inner.func) == 'np.array' and len(inner.args) == 1 and not inner.keywords):
+        return None
+    a = inner.args[0]
+    neg = isinstance(a, ast.UnaryOp) and isinstance(a.op, ast.USub)
+    if neg:
+        a = a.operand
+    if not (isinstance(a, ast.Constant) and isinstance(a.value, int) and not isinstance(a.value, bool)):
+        return None
+    return -a.value if neg else a.value
+
+
+def _c12_constants_fallback(repo, out, int_dummy):
+    """Model/SensorCache.v (in C19's cone: Concat.dummy_code = SensorCache.dummy_value) uses two constants that C12's
+    whole-function item `item_sensor_api_shape` regenerates: sensor_dummy_int and sensor_offset_default.  That item
+    matches dummy_sensor_getter against a pattern of its own; while the pattern does not accept the current source
+    (e.g. between a repair of dummy_sensor_getter and the update of C12's pattern) the item emits NOTHING and
+    SensorCache.v would not compile.  Only in that case the two constants are emitted here, read from the same source
+    lines (never twice: when C12's item translates, this function emits nothing)."""
+    from vh.items import c12
+    try:
+        c12.item_sensor_api_shape(repo, [])
+        return
+    except TranslateError:
+        pass
+    rel = 'katdal/sensordata.py'
+    ex = _func(_class(_parse(repo, rel), 'SensorCache', rel), '_extract', rel)
+    offs = []
+    for n in ast.walk(ex):
+        if isinstance(n, ast.Call) and _src(n.func) == 'props.get' and len(n.args) == 2 \
+                and isinstance(n.args[0], ast.Constant) and n.args[0].value == 'time_offset':
+            offs.append(n.args[1])
+    if len(offs) != 1 or not (isinstance(offs[0], ast.Constant) and isinstance(offs[0].value, (int, float))
+                              and not isinstance(offs[0].value, bool) and offs[0].value == int(offs[0].value)):
+        raise TranslateError("SensorCache._extract: expected exactly one props.get('time_offset', <integral number>)")
+    out.append('(* the next two: C12\'s item_sensor_api_shape does not translate this tree; emitted by C19 for Model/SensorCache.v *)')
+    out.append('Definition sensor_dummy_int : Z := %s.' % coq_Z(int_dummy))
+    out.append('Definition sensor_offset_default : Z := %s.' % coq_Z(int(offs[0].value)))
+
+
 def item_dummy(repo, out):
     """The if-chain `if np.issubdtype(dtype, np.<abstract type>): value = ...` as a table (type class, filler)."""
     rel = 'katdal/sensordata.py'
@@ -230,8 +279,8 @@ def item_dummy(repo, out):
         raise TranslateError('dummy_sensor_getter: the branch for value=None is not a single if-chain on the dtype')
     table = []
     cur = node[0]
-    fillers = {'np.dtype(dtype).type(np.nan)': 'nan', 'np.dtype(dtype).type(-1)': '-1', "''": 'empty', 'False': 'False',
-               'np.array(-1).astype(dtype)[()]': '-1'}      # the latter: -1 / all bits set, the repair of finding C19-F4
+    fillers = {'np.dtype(dtype).type(np.nan)': 'nan', "''": 'empty', 'False': 'False'}
+    int_dummy = []
     while True:
         classes = []
         tests = cur.test.values if isinstance(cur.test, ast.BoolOp) and isinstance(cur.test.op, ast.Or) else [cur.test]
@@ -243,6 +292,16 @@ def item_dummy(repo, out):
         if not (len(cur.body) == 1 and isinstance(cur.body[0], ast.Assign) and _src(cur.body[0].targets[0]) == 'value'):
             raise TranslateError('dummy_sensor_getter: a branch does not just assign `value`')
         val = _src(cur.body[0].value)
+        k = _cast_int_filler(cur.body[0].value)
+        if k is not None:
+            # np.array(<k>).astype(dtype)[()]: the integer k CAST into the type (k itself for a signed type, k modulo
+            # 2^bits for an unsigned one) - Model/Concat.v int_dummy
+            int_dummy.append(k)
+            fillers[val] = str(k)
+        elif re.fullmatch(r'np\.dtype\(dtype\)\.type\(-?\d+\)', val):
+            raise TranslateError('dummy_sensor_getter: the integer dummy is CONSTRUCTED in the type (`%s`), which raises '
+                                 'OverflowError for an unsigned integer type under NumPy >= 2: regression of the repair '
+                                 'of finding C19-F4 (expected np.array(<int>).astype(dtype)[()])' % val)
         if val not in fillers:
             raise TranslateError('dummy_sensor_getter: unknown filler expression `%s`' % val)
         for c in classes:
@@ -254,6 +313,12 @@ def item_dummy(repo, out):
         cur = cur.orelse[0]
     out.append('Definition dummy_value_table : list (string * string) := [%s].'
                % '; '.join('(%s, %s)' % (coq_string(a), coq_string(b)) for a, b in table))
+    if len(int_dummy) != 1 or [c for c, f in table if f == str(int_dummy[0])] != ['integer']:
+        raise TranslateError('dummy_sensor_getter: expected exactly one branch np.issubdtype(dtype, np.integer) whose '
+                             'filler is np.array(<int>).astype(dtype)[()]')
+    out.append('Definition dummy_int_is_cast_into_type : bool := true.')
+    out.append('Definition dummy_int_before_cast : Z := %s.' % coq_Z(int_dummy[0]))
+    _c12_constants_fallback(repo, out, int_dummy[0])
     # ConcatenatedSensorCache.get hands it the initial_value property and the common dtype of the parts that have the sensor
     tree = _parse(repo, REL)
     get = _src(_func(_class(tree, 'ConcatenatedSensorCache', REL), 'get', REL))
@@ -326,4 +391,87 @@ def item_select_sw(repo, out):
     out.append('Definition select_sw_out_of_range_raises_indexerror : bool := true.')
 
 
-ITEMS = [item_concat_init, item_identity, item_dummy, item_select_sw]
+# ---------------------------------------------------------------------------------------------------------------
+# ConcatenatedDataSet.__init__: the metadata merge (Model/ConcatMeta.v)
+
+def item_concat_meta(repo, out):
+    """ref_ant / time_offset from the head of the INPUT list (before the sort); after the sort the six joined strings
+    (separator per field), obs_params and receivers (keys in order of first appearance, `.get(key, '')`, one value iff
+    itertools.groupby finds one run), start_time = min, end_time = max."""
+    tree = _parse(repo, REL)
+    init = _func(_class(tree, 'ConcatenatedDataSet', REL), '__init__', REL)
+    body = [n for n in init.body if not (isinstance(n, ast.Expr) and isinstance(n.value, ast.Constant))]
+    lines = [_src(n) for n in body]
+    if [a.arg for a in init.args.args] != ['self', 'datasets'] or init.args.defaults:
+        raise TranslateError('ConcatenatedDataSet.__init__: signature changed')
+
+    def need(text, what):
+        if lines.count(text) != 1:
+            raise TranslateError('ConcatenatedDataSet.__init__: expected exactly one `%s` (%s)' % (text, what))
+        return lines.index(text)
+    if lines[0] != "DataSet.__init__(self,'',datasets[0].ref_ant,datasets[0].time_offset)":
+        raise TranslateError('ConcatenatedDataSet.__init__: does not start with DataSet.__init__(self, \'\', '
+                             'datasets[0].ref_ant, datasets[0].time_offset) (ref_ant / time_offset of the first INPUT data set)')
+    isort = need('self.datasets=datasets=[d[-1]fordindecorated_datasets]', 'undecorate')
+    for n in body[:isort]:
+        for t in ast.walk(n):
+            if isinstance(t, ast.Attribute) and isinstance(t.value, ast.Name) and t.value.id == 'self' \
+                    and isinstance(t.ctx, ast.Store) and t.attr != 'datasets':
+                raise TranslateError('ConcatenatedDataSet.__init__: self.%s is set before the parts are sorted' % t.attr)
+    out.append('Definition concat_meta_ref_from_input_head : bool := true.')
+    joins = []
+    last = isort
+    for field, sep in (('name', ','), ('url', ' | '), ('version', ','), ('observer', ','), ('description', ' | '),
+                       ('experiment_id', ',')):
+        found = [i for i, n in enumerate(body) if isinstance(n, ast.Assign) and _src(n.targets[0]) == 'self.' + field]
+        if len(found) != 1:
+            raise TranslateError('ConcatenatedDataSet.__init__: expected exactly one assignment to self.%s' % field)
+        v = body[found[0]].value
+        if not (isinstance(v, ast.Call) and isinstance(v.func, ast.Attribute) and v.func.attr == 'join'
+                and isinstance(v.func.value, ast.Constant) and isinstance(v.func.value.value, str) and len(v.args) == 1
+                and _src(v.args[0]) == 'unique_in_order([d.%sfordindatasets])' % field):
+            raise TranslateError('ConcatenatedDataSet.__init__: self.%s is not <sep>.join(unique_in_order([d.%s for d in '
+                                 'datasets]))' % (field, field))
+        if found[0] < isort:
+            raise TranslateError('ConcatenatedDataSet.__init__: self.%s is merged before the parts are sorted' % field)
+        joins.append((field, v.func.value.value))
+        last = max(last, found[0])
+    out.append('Definition concat_meta_joins : list (string * string) := [%s].'
+               % '; '.join('(%s, %s)' % (coq_string(a), coq_string(b)) for a, b in joins))
+    dicts = []
+    for var, attr, key, vals in (('obs_params', 'obs_params', 'param', 'values'), ('rx_ants', 'receivers', 'ant', 'rx')):
+        i = need('%s=unique_in_order(reduce(lambdax,y:x+y,[list(d.%s.keys())fordindatasets]))' % (var, attr),
+                 'keys in order of first appearance')
+        loop = body[i + 1] if i + 1 < len(body) else None
+        if not (isinstance(loop, ast.For) and _src(loop.target) == key and _src(loop.iter) == var and not loop.orelse):
+            raise TranslateError('ConcatenatedDataSet.__init__: `for %s in %s:` does not follow the key list' % (key, var))
+        want = ["%s=[d.%s.get(%s,'')fordindatasets]" % (vals, attr, key),
+                'self.%s[%s]=%s[0]iflen([kforkinitertools.groupby(%s)])==1else%s' % (attr, key, vals, vals, vals)]
+        if [_src(n) for n in loop.body] != want:
+            raise TranslateError('ConcatenatedDataSet.__init__: the merge loop of %s differs from the modelled one: %s'
+                                 % (attr, [_src(n) for n in loop.body][:2]))
+        if i < isort:
+            raise TranslateError('ConcatenatedDataSet.__init__: %s merged before the parts are sorted' % attr)
+        dicts.append(attr)
+    out.append('Definition concat_meta_dicts : list string := %s.' % coq_strings(dicts))
+    out.append('Definition concat_meta_missing_value : string := %s.' % coq_string(''))
+    out.append('Definition concat_meta_one_value_iff_one_group : bool := true.')
+    i1 = need('self.start_time=min([d.start_timefordindatasets])', 'start time')
+    i2 = need('self.end_time=max([d.end_timefordindatasets])', 'end time')
+    if min(i1, i2) < isort:
+        raise TranslateError('ConcatenatedDataSet.__init__: start / end time set before the sort')
+    out.append('Definition concat_start_is_min_end_is_max : bool := true.')
+    # nothing else in the constructor assigns these attributes
+    watched = {'name', 'url', 'version', 'observer', 'description', 'experiment_id', 'start_time', 'end_time', 'ref_ant',
+               'time_offset', 'obs_params', 'receivers'}
+    count = {}
+    for n in ast.walk(init):
+        if isinstance(n, ast.Attribute) and isinstance(n.value, ast.Name) and n.value.id == 'self' \
+                and isinstance(n.ctx, ast.Store) and n.attr in watched:
+            count[n.attr] = count.get(n.attr, 0) + 1
+    extra = sorted(k for k, v in count.items() if v > 1 or k in ('ref_ant', 'time_offset', 'obs_params', 'receivers'))
+    if extra:
+        raise TranslateError('ConcatenatedDataSet.__init__: %s assigned more than once / directly' % extra)
+
+
+ITEMS = [item_concat_init, item_identity, item_dummy, item_select_sw, item_concat_meta]
